@@ -276,7 +276,9 @@ class NpRef:
         }.get(kind)
         if fn is not None:
             return fn(v[0])
-        fn2 = {"atan2": np.arctan2, "hypot": np.hypot, "copysign": np.copysign, "pow": np.power, "nextafter": np.nextafter}.get(kind)
+        if kind == "pow":
+            return v[0] ** v[1]  # the numpy target emits the ** operator on numpy scalars
+        fn2 = {"atan2": np.arctan2, "hypot": np.hypot, "copysign": np.copysign, "nextafter": np.nextafter}.get(kind)
         if fn2 is not None:
             return fn2(v[0], v[1])
         if kind == "remainder":
@@ -531,8 +533,18 @@ class PyRef:
             return min(a, b)
         if kind == "logical_not":
             return not a
-        if kind in ("lt", "le", "gt", "ge", "eq", "ne"):
-            return {"lt": a < b, "le": a <= b, "gt": a > b, "ge": a >= b, "eq": a == b, "ne": a != b}[kind]
+        if kind == "lt":
+            return a < b
+        if kind == "le":
+            return a <= b
+        if kind == "gt":
+            return a > b
+        if kind == "ge":
+            return a >= b
+        if kind == "eq":
+            return a == b
+        if kind == "ne":
+            return a != b
         if kind == "complex":
             return complex(a, b)
         if kind == "real":
@@ -578,3 +590,62 @@ def same_value(a, b, zero_sign_matters=False):
         if zero_sign_matters and x == 0 and math.copysign(1, x) != math.copysign(1, y):
             return False
     return True
+
+
+# ----------------------------------------------------------------------------------------------------------------
+# C semantics: IEEE basic operations through numpy scalars (correctly rounded, identical to SSE arithmetic compiled with
+# -ffp-contract=off), transcendental functions through ctypes calls into the very libm the emitted C++ links against.
+
+_LIBM = None
+
+
+def libm():
+    global _LIBM
+    if _LIBM is None:
+        import ctypes
+        import ctypes.util
+
+        _LIBM = ctypes.CDLL(ctypes.util.find_library("m") or "libm.so.6")
+    return _LIBM
+
+
+_LIBM_FN = {}
+
+
+def libm_call(name, T, *args):
+    import ctypes
+
+    suffix = "f" if T is np.float32 else ""
+    ct = ctypes.c_float if T is np.float32 else ctypes.c_double
+    key = (name, suffix, len(args))
+    if key not in _LIBM_FN:
+        fn = getattr(libm(), name + suffix)
+        fn.restype = ct
+        fn.argtypes = [ct] * len(args)
+        _LIBM_FN[key] = fn
+    return T(_LIBM_FN[key](*[float(a) for a in args]))
+
+
+class CRef(NpRef):
+    """Graph semantics with C++ primitives on float/double (std:: functions = libm)."""
+
+    LIBM1 = {"log", "log1p", "log2", "log10", "exp", "expm1", "sin", "cos", "tan", "sinh", "cosh", "tanh", "asin", "acos", "atan", "asinh", "acosh", "atanh", "floor", "ceil", "round"}
+    LIBM2 = {"atan2", "hypot", "copysign"}
+
+    def _apply(self, kind, v):
+        if kind in self.LIBM1 and isinstance(v[0], (np.float32, np.float64)):
+            return libm_call(kind, type(v[0]), v[0])
+        if kind in self.LIBM2 and isinstance(v[0], (np.float32, np.float64)) and type(v[0]) is type(v[1]):
+            return libm_call(kind, type(v[0]), v[0], v[1])
+        if kind == "maximum":
+            # std::max(a, b) = (a < b) ? b : a
+            T = np.result_type(v[0], v[1]).type
+            return T(v[1]) if v[0] < v[1] else T(v[0])
+        if kind == "minimum":
+            # std::min(a, b) = (b < a) ? b : a
+            T = np.result_type(v[0], v[1]).type
+            return T(v[1]) if v[1] < v[0] else T(v[0])
+        if kind == "absolute" and isinstance(v[0], np.complexfloating):
+            ft = np.float32 if isinstance(v[0], np.complex64) else np.float64
+            return libm_call("hypot", ft, ft(v[0].real), ft(v[0].imag))
+        return super()._apply(kind, v)
